@@ -279,6 +279,9 @@ fn one_pass<T: Sc, F: Factory<T>>(sc: &Scenario, rep: &mut RunReport, first: boo
     let mut prev_kinds: Vec<&'static str> = vec!["build"];
     // is the cache in effect the product of a fault-free update?
     let mut state_clean = true;
+    // flavour that computed the cache in effect (a conversion changes the flavour, not the cache)
+    let mut cache_par = sc.parallel;
+    let mut cur_par = sc.parallel;
     if r.build.is_ok() {
         let bf = log[..r.build_events.min(log.len())]
             .iter()
@@ -381,7 +384,7 @@ fn one_pass<T: Sc, F: Factory<T>>(sc: &Scenario, rep: &mut RunReport, first: boo
                         // fresh problem at the reported α
                         let alpha: Vec<T> = snap_now.params.iter().map(|b| T::of_bits(*b)).collect();
                         // only meaningful if the current cache belongs to a clean update
-                        if state_clean {
+                        if state_clean && cache_par == st.par_after {
                             if let Ok(Ok(fr)) = guarded(|| fresh::<T, F>(&r.world, &alpha, st.par_after, true)) {
                                 compared += 1;
                                 if fr.jac.as_ref() != Some(j) {
@@ -416,7 +419,8 @@ fn one_pass<T: Sc, F: Factory<T>>(sc: &Scenario, rep: &mut RunReport, first: boo
                         let alpha: Vec<T> = snap_now.params.iter().map(|b| T::of_bits(*b)).collect();
                         if let Ok(Ok(fr)) = guarded(|| fresh::<T, F>(&r.world, &alpha, false, false)) {
                             compared += 1;
-                            if fr.snap != *snap_now {
+                            // the state was computed by the flavour the fit ran on; the reference is sequential
+                            if fr.snap.params != snap_now.params || agree_with_reference::<T>(&r.world, &fr.snap, snap_now, !(if f.evaluations > 1 { f.was_parallel } else { cache_par })) == Agree::No {
                                 rep.violate(sc, "HISTORY_DEPENDENCE", "Fit", format!("state after a successful fit (op {}) differs from a fresh problem at the fitted α", st.op));
                             }
                         }
@@ -475,6 +479,18 @@ fn one_pass<T: Sc, F: Factory<T>>(sc: &Scenario, rep: &mut RunReport, first: boo
             }
             _ => {}
         }
+        match op {
+            Op::SetParams(_) | Op::Marathon { .. } => cache_par = cur_par,
+            Op::Fit | Op::FitWithStatistics => {
+                if let Extra::Fit(f) = &st.extra {
+                    if f.evaluations > 1 {
+                        cache_par = f.was_parallel;
+                    }
+                }
+            }
+            _ => {}
+        }
+        cur_par = st.par_after;
         // non-updating ops must not change what the problem reports
         if !is_update(op) {
             if let Some(ps) = &prev_snap {
